@@ -31,7 +31,9 @@ Inductive ty :=
 | TOpt (t : ty)
 | TSeq (t : ty)
 | TTuple (ts : list ty)
-| TEnum (ts : list ty).      (* payload shape per variant; unit variant = TTuple [] *)
+| TEnum (ts : list ty)       (* payload shape per variant; unit variant = TTuple [] *)
+| TDelay (k : unit -> ty).   (* a shape unfolded on demand: recursive Rust types (Struct -> TypeValue -> Struct)
+                               are generated as fuel-bounded unfoldings that must not be evaluated eagerly *)
 
 Definition TUnit : ty := TTuple [].
 Definition TMap (k v : ty) : ty := TSeq (TTuple [k; v]).
@@ -124,6 +126,7 @@ Fixpoint decode (t : ty) : dec val :=
            | [] => Fail                        (* serde: "invalid value: variant index" *)
            | t' :: ts' => if j =? 0 then fmap (VVariant i) (decode t') else pick ts' (N.pred j)
            end) ts i)
+  | TDelay k => decode (k tt)
   end.
 
 (* ---- typing ---- *)
@@ -131,27 +134,33 @@ Definition len_ok (n : nat) : bool := N.of_nat n <? wmax W64.
 Fixpoint nthN {A} (l : list A) (j : N) : option A :=
   match l with [] => None | x :: l' => if j =? 0 then Some x else nthN l' (N.pred j) end.
 
-Fixpoint wt (t : ty) (v : val) {struct v} : bool :=
-  match v, t with
-  | VU8 n, TU8 => byte_ok n
-  | VBool _, TBool => true
-  | VUInt n, TUInt w => n <? wmax w
-  | VSInt z, TSInt w => srange w z
-  | VF64 bits, TF64 => Nat.eqb (length bits) 8 && forallb byte_ok bits
-  | VBytes bs, TBytes => len_ok (length bs) && forallb byte_ok bs
-  | VStr bs, TStr => len_ok (length bs) && utf8_valid bs
-  | VNone, TOpt _ => true
-  | VSome v', TOpt t' => wt t' v'
-  | VSeq vs, TSeq t' => len_ok (length vs) && forallb (wt t') vs
-  | VTuple vs, TTuple ts =>
-      (fix go (ts : list ty) (vs : list val) {struct vs} : bool :=
+Fixpoint wt (t : ty) (v : val) {struct t} : bool :=
+  match t, v with
+  | TU8, VU8 n => byte_ok n
+  | TBool, VBool _ => true
+  | TUInt w, VUInt n => n <? wmax w
+  | TSInt w, VSInt z => srange w z
+  | TF64, VF64 bits => Nat.eqb (length bits) 8 && forallb byte_ok bits
+  | TBytes, VBytes bs => len_ok (length bs) && forallb byte_ok bs
+  | TStr, VStr bs => len_ok (length bs) && utf8_valid bs
+  | TOpt _, VNone => true
+  | TOpt t', VSome v' => wt t' v'
+  | TSeq t', VSeq vs => len_ok (length vs) && forallb (wt t') vs
+  | TTuple ts, VTuple vs =>
+      (fix go (ts : list ty) (vs : list val) {struct ts} : bool :=
          match ts, vs with
          | [], [] => true
          | t' :: ts', v' :: vs' => wt t' v' && go ts' vs'
          | _, _ => false
          end) ts vs
-  | VVariant i v', TEnum ts =>
-      (i <? wmax W32) && match nthN ts i with Some t' => wt t' v' | None => false end
+  | TEnum ts, VVariant i v' =>
+      (i <? wmax W32) &&
+      (fix pick (ts : list ty) (j : N) {struct ts} : bool :=
+         match ts with
+         | [] => false
+         | t' :: ts' => if j =? 0 then wt t' v' else pick ts' (N.pred j)
+         end) ts i
+  | TDelay k, _ => wt (k tt) v
   | _, _ => false
   end.
 
@@ -197,7 +206,13 @@ Definition dec_pick (i : N) : list ty -> N -> dec val :=
     | [] => Fail
     | t' :: ts' => if j =? 0 then fmap (VVariant i) (decode t') else pick ts' (N.pred j)
     end.
-Fixpoint wt_tuple (ts : list ty) (vs : list val) {struct vs} : bool :=
+Definition wt_pick (v' : val) : list ty -> N -> bool :=
+  fix pick (ts : list ty) (j : N) {struct ts} : bool :=
+    match ts with
+    | [] => false
+    | t' :: ts' => if j =? 0 then wt t' v' else pick ts' (N.pred j)
+    end.
+Fixpoint wt_tuple (ts : list ty) (vs : list val) {struct ts} : bool :=
   match ts, vs with
   | [], [] => true
   | t' :: ts', v' :: vs' => wt t' v' && wt_tuple ts' vs'
